@@ -7,7 +7,8 @@ from collections.abc import Sequence
 from abc import ABC, abstractmethod
 
 from kernpy.core import Document, SpineOperationToken, HeaderToken, Importer, TokenCategory, InstrumentToken, \
-    TOKEN_SEPARATOR, DECORATION_SEPARATOR, Token, NoteRestToken, HEADERS, BEKERN_CATEGORIES, ComplexToken, Node
+    TOKEN_SEPARATOR, DECORATION_SEPARATOR, Token, NoteRestToken, HEADERS, BEKERN_CATEGORIES, ComplexToken, Node, \
+    TokenCategoryHierarchyMapper
 from kernpy.core.tokenizers import Encoding, TokenizerFactory, Tokenizer
 
 
@@ -559,7 +560,8 @@ def kern_to_ekern(
     if len(importer.errors):
         raise Exception(f'ERROR: {input_file} has errors {importer.get_error_messages()}')
 
-    export_options = ExportOptions(spine_types=['**kern'], token_categories=BEKERN_CATEGORIES,
+    export_options = ExportOptions(spine_types=['**kern'],
+                                   token_categories=TokenCategoryHierarchyMapper.valid(include=BEKERN_CATEGORIES),
                                    kern_type=Encoding.eKern)
     exporter = Exporter()
     exported_ekern = exporter.export_string(document, export_options)
